@@ -113,8 +113,8 @@ CHECKS = {
  "C20": dict(
   cat="exploration", ref="DESIGN.md §4 C20",
   technique="proptest-generated zippychord dictionaries and chord press orders; the OS output is replayed into a text-buffer model (characters with shift and AltGr state, space, backspace) and compared with the text the dictionary promises; proptest shrinking",
-  text="For an entry of a generated dictionary (overlapping chords, chords extending other chords with and without a shared output prefix, follow-up chords, upper/lower case, shifted symbols and AltGr characters declared in output-character-mappings) every chord of its path is pressed in a generated order with small gaps, with or without shift and / or AltGr held, followed by more typing: the text left must be exactly the expansion (+ smart space per configuration, removed by punctuation in full mode) followed by the later typing; sequential single-key typing must pass through unchanged; a held shift / AltGr must be down again after each activation; nothing stays down.",
-  note="F48 (follow-up chord whose first key is in no first chord could never be activated) and F51 (rest of an extended expansion typed with the held shift) were repaired with fix: commits; F50 (a follow-up chord that extends another follow-up chord of the same level) is a known finding. no-erase / single-output mappings (dead keys) and caps-word are not generated."),
+  text="For an entry of a generated dictionary (overlapping chords, chords extending other chords with and without a shared output prefix, follow-up chords, upper/lower case, shifted symbols and AltGr characters declared in output-character-mappings) every chord of its path is pressed in a generated order with small gaps, with or without shift and / or AltGr held, followed by more typing: the text left must be exactly the expansion (+ smart space per configuration, removed by punctuation in full mode) followed by the later typing; sequential single-key typing must pass through unchanged; several episodes (activations, activations held beyond the deadline, lone taps of chord keys) separated by full releases and idle time must each leave exactly their own text; a held shift / AltGr must be down again after each activation; nothing stays down.",
+  note="F48 (follow-up chord whose first key is in no first chord could never be activated), F56 (a first chord that begins with smart-space punctuation after an earlier activation) and F51 (rest of an extended expansion typed with the held shift) were repaired with fix: commits; F50 (a follow-up chord that extends another follow-up chord of the same level) is a known finding. no-erase / single-output mappings (dead keys) and caps-word are not generated."),
 
  "C17": dict(
   cat="exploration", ref="DESIGN.md §4 C17, Appendix A.4/D",
